@@ -280,6 +280,62 @@ def C13(run):
     grammar(run, 'fault', family='fault')
 
 
+def C20(run):
+    import subprocess
+    run.rule = ('Cli.tla models the process (usage check, file open, parse, output chunk by chunk, error report, exit) and TLC checks its '
+                'invariants (errors never on stdout, error after all output in the merged stream, prefixed errors, non-zero exit for a '
+                'missing file / bad usage, nothing after exit) over all parameter shapes; the built binary is then run on a corpus that TLC '
+                'produces from the grammar renderer (12 whole programs with stdin contents incl. run-time errors after output and reads past '
+                'end of input, the fault catalogue of C13 for parse errors) x {exec, lint, parse}, each with separate pipes, one merged pipe '
+                'and a repeat; every observation is recorded next to the library\'s in-process result and validated by TLC against '
+                'CliTrace.tla; non-trivial = distinct trace lines')
+    run.assumptions += ['`rrss` with no argument at all exits 0 today; the statement does not settle whether that is bad usage, so it is not judged',
+                        'ASCII corpus (TLC prints non-ASCII as ?)']
+    run.add_tlc('cli-model', run_tlc('MC_Cli.tla', 'MC_Cli.cfg', run.path('mc_cli.out'), workers=4))
+    cases = run.path('cli_cases.txt')
+    with open(cases, 'w') as out:
+        for fam, limit in (('cli', 1000), ('fault', 120 if run.tier == 'quick' else 2000), ('stmt', 60 if run.tier == 'quick' else 600)):
+            o = run.path('g_%s.out' % fam)
+            res = run_tlc('MC_Grammar.tla', 'MC_Grammar_%s_%s.cfg' % (fam, 'quick'), o, xss='256m')
+            run.add_tlc('cli-corpus-' + fam, res)
+            n = 0
+            for l in open(o, errors='replace'):
+                if l.startswith('<<"R"') and '~' not in l and '^' not in l and '|' not in l and n < limit:
+                    out.write(l)
+                    n += 1
+            os.remove(o)
+    rrss = build_rrss_bin()
+    binp = build_harness('debug')
+    trace = run.path('cli.ndjson')
+    p = subprocess.run([binp, 'record', 'cli', '--in', cases, '--bin', rrss, '--dir', run.path(''), '--out', trace],
+                       stdout=subprocess.PIPE, stderr=subprocess.PIPE, text=True)
+    if p.returncode != 0:
+        raise ToolError('cli recorder failed: ' + p.stderr[-800:])
+    out = run.path('clitrace.out')
+    res = run_tlc('CliTrace.tla', 'CliTrace.cfg', out, workers=1, extra_env={'TRACE': trace}, depth_first=True, xss='64m', heap='2g')
+    lines = open(trace).read().splitlines()
+    run.exhaustive = False
+    run.jobs.append(dict(job='clitrace', kind='trace-validation', module='CliTrace.tla', events=len(lines), accepted=res['ok'],
+                         states=res['distinct'], wall_s=round(res['wall'], 1), error=res['error']))
+    run.states += res['distinct']
+    run.transitions += res['states']
+    if res['ok']:
+        run.traces += len(lines)
+        run.evaluations += len(lines)
+        run.distinct_nontrivial += len(set(lines))
+        for l in lines[:2]:
+            run.samples.append(dict(job='clitrace', trace_line=json.loads(l)))
+    else:
+        rejected = None
+        for l in open(out, errors='replace'):
+            if l.startswith('<<"REJECTED"'):
+                rejected = l.strip()[:4000]
+        if rejected is None:
+            raise ToolError('CliTrace failed without a rejected event: %s (see %s)' % (res['error'], out))
+        run.violations.append(dict(family=None, job='clitrace', msg='observed run of the rrss binary rejected by CliTrace.tla',
+                                   rec=None, rejected=rejected, trace=trace))
+
+
 PROPS = {
     'C01': (C01, 'model_checking'),
     'C02': (C02, 'model_checking'),
@@ -296,6 +352,7 @@ PROPS = {
     'C17': (C17, 'model_checking'),
     'C18': (C18, 'model_checking'),
     'C19': (C19, 'model_checking'),
+    'C20': (C20, 'model_checking'),
     'C11': (C11, 'model_checking'),
     'C12': (C12, 'model_checking'),
     'C13': (C13, 'fault_enumeration'),
